@@ -76,8 +76,12 @@ PROPS = {
     "C15": {"level": "translation_validation", "runs": [run("frrk8s", "TestVerif_C15", shards=(4, 16))],
             "thresholds": {"quick": {"programs": 1400, "programs-2+-neighbors-disjoint-requests": 400, "must-deny-evaluations": 4000, "merged-duplicates": 2000, "order-permutations-compared": 5000, "crosscheck-programs": 1400}},
             "assumptions": ["SourceAddress propagation is not demanded (the golden files pin its absence)", "cross-check against the C14 interpretation of the FRR text rendered from the same sessions"]},
-    "C16": {"level": "exploration", "runs": [run("native", "TestVerif_C16", shards=(4, 16), files=["c16", "shared"])]},
-    "C17": {"level": "fault_enumeration", "runs": [run("native", "TestVerif_C17", race=True, shards=(4, 16), files=["c17", "shared"])]},
+    "C16": {"level": "exploration", "runs": [run("native", "TestVerif_C16", shards=(4, 16), files=["c16", "shared"])],
+            "thresholds": {"quick": {"decoded:update": 11000, "decoded:withdraw": 250, "decoded:open": 170, "decoded:keepalive": 50, "open-inputs:valid": 16000, "open-inputs:mutated": 25000, "open-inputs:random": 12000, "open-wellformed-judged:valid": 16000}},
+            "assumptions": ["the harness's own RFC 4271/5492/4760/6793/1997 codec (harness/lib/rfc4271.go) is the reference decoder"]},
+    "C17": {"level": "fault_enumeration", "runs": [run("native", "TestVerif_C17", race=True, shards=(4, 16), files=["c17", "shared"])],
+            "thresholds": {"quick": {"scenarios": 25, "scenarios:converged": 17, "connections:established": 40, "faults:drop:idle": 3, "faults:drop:between-messages": 3, "faults:drop:inside-message": 4, "reconnect-resends-verified": 9, "withdraw-messages": 23, "wrong-asn-refusals-verified": 3, "close-windows-watched": 25}},
+            "assumptions": ["bounded-progress restatement of convergence (20 s + canary-clean confirmation period); TCP-MD5 is not exercised", "the scripted peer uses the harness's own RFC 4271 codec"]},
     "C18": {"level": "exploration", "runs": [run("controllers", "TestVerif_C18", shards=(4, 16))],
             "thresholds": {"quick": {"snapshots-3+-objects-per-kind": 200, "permutations-compared": 10000, "repetitions-compared": 3800, "snapshots-2+-pools-one-namespace": 200, "snapshots-2+-pools-one-namespace-by-selector": 90, "snapshots-accepted": 140, "reconciles": 12000, "handler-calls": 900}},
             "assumptions": ["equality is reflect.DeepEqual, the reconcilers' own comparison; error texts are not compared"]},
